@@ -6,11 +6,12 @@ use crate::TmplError;
 mod expr;
 mod tag;
 
-const VAR_NAME_CHARS: [char; 63] = [
+// NOTE lowercase letters are excluded from the following chars,
+// so that no generated name can be a reserved word (`if` , `in` , `do` , `for` , ...)
+// or a well-known global (`Object` , `undefined` , ...).
+const VAR_NAME_CHARS: [char; 37] = [
     '_', '0', '1', '2', '3', '4', '5', '6', '7', '8', '9', 'A', 'B', 'C', 'D', 'E', 'F', 'G', 'H',
-    'I', 'J', 'K', 'L', 'M', 'N', 'O', 'P', 'Q', 'R', 'S', 'T', 'U', 'V', 'W', 'X', 'Y', 'Z', 'a',
-    'b', 'c', 'd', 'e', 'f', 'g', 'h', 'i', 'j', 'k', 'l', 'm', 'n', 'o', 'p', 'q', 'r', 's', 't',
-    'u', 'v', 'w', 'x', 'y', 'z',
+    'I', 'J', 'K', 'L', 'M', 'N', 'O', 'P', 'Q', 'R', 'S', 'T', 'U', 'V', 'W', 'X', 'Y', 'Z',
 ];
 const VAR_NAME_START_CHARS: [char; 52] = [
     'A', 'B', 'C', 'D', 'E', 'F', 'G', 'H', 'I', 'J', 'K', 'L', 'M', 'N', 'O', 'P', 'Q', 'R', 'S',
